@@ -531,4 +531,11 @@ VF_TARGET("C06.seq13_all_singles", prop, 16, 60)
 #else
 VF_TARGET("C06.seq13", prop, 256, 60)
 #endif
-namespace vf { void vf_global_init(int, char **) { mxh::global_open(); } }
+namespace vf { void vf_global_init(int, char **) {
+    if (getenv("C06_LIST_SINGLES")) {   // index -> deviation table of the bounded-exhaustive target (for naming regression tapes)
+        uint64_t idx = 0;
+        for (int k = 0; k < 8; k++) for (auto &x : all_singles(DOMS[k])) printf("%llu %s %s\n", (unsigned long long) idx++, dom_str(DOMS[k]).c_str(), dev_str(x).c_str());
+        exit(0);
+    }
+    mxh::global_open();
+} }
